@@ -16,6 +16,15 @@ if REPO not in sys.path[:2]:
 
 warnings.filterwarnings("ignore")
 
+# z3 writes C-level warnings to fd 2 (e.g. 'unknown parameter' from get_parameters_description, the
+# unsat-core trace in debug mode); keep them out of the check output unless VF_DEBUG is set.
+if not os.environ.get("VF_DEBUG"):
+    try:
+        _devnull = os.open(os.devnull, os.O_WRONLY)
+        os.dup2(_devnull, 2)
+    except OSError:
+        pass
+
 
 class HarnessError(Exception):
     """Raised when the harness itself (not the code under test) is broken."""
